@@ -5,11 +5,11 @@
 package gosym
 
 import (
-		"fmt"
+	"fmt"
 	"go/constant"
 	"go/token"
 	"go/types"
-				"unsafe"
+	"unsafe"
 
 	"golang.org/x/tools/go/ssa"
 )
